@@ -619,6 +619,8 @@ def judge(pre_xml, msg_xml, post_xml, outcome, warns, exc_mro=()):
             _generic_c03(pre, post, m, D, allow_meta=(m.level in ('meta', 'ro')))
             if m.level in ('story', 'item') and set(m.notes) <= ABSENT_REF_NOTES:
                 _no_collateral_for_missing_reference(pre, post, m, D)
+            if set(m.notes) <= BLANK_CARRIED_NOTES:
+                _blank_carried_arrives(pre, post, m, D)
         return v
 
     # ---- envelope / C14 invariants on the post state
@@ -659,6 +661,47 @@ def judge(pre_xml, msg_xml, post_xml, outcome, warns, exc_mro=()):
         return v
     v.in_claim = False
     return v
+
+
+BLANK_CARRIED_NOTES = {'carried story with blank ID', 'carried item with blank ID'}
+
+
+def _blank_carried_arrives(pre, post, m, D):
+    """C04 for a message that is schema-shaped except that a carried story / item has a BLANK ID
+    (the tag is there): when the add returned, that element is in the running order with the content
+    sent - unless an element without an ID was there already (then it may count as a duplicate) or the
+    target did not resolve."""
+    op = OPS.get(m.kind)
+    if op not in ('insert', 'append', 'replace'):
+        return
+    if m.level == 'story':
+        if None in pre.story_ids:
+            return
+        if op != 'append' and not (m.target[0] == 'id' and m.target[1] in pre.story_ids) and \
+                not (op == 'insert' and m.target[0] in END_REFS.get(m.kind, ())):
+            return
+        have_pre, have_post = Counter(pre.story_canons), Counter(post.story_canons)
+        for c in m.carried:
+            if sid(c) is None and have_post[canon(c)] < have_pre[canon(c)] + 1:
+                D.append(Dev('C04', 'carried-story-with-blank-id-missing',
+                             {'kind': m.kind, 'pre': pre.story_ids, 'post': post.story_ids}))
+                return
+    elif m.level == 'item':
+        if not (m.story_ref[0] == 'id' and pre.story_ids.count(m.story_ref[1]) == 1):
+            return
+        ps, qs = pre.story(m.story_ref[1]), post.story(m.story_ref[1])
+        if qs is None or None in item_ids(ps):
+            return
+        L = item_ids(ps)
+        if not (m.target[0] == 'id' and m.target[1] in L) and not (op == 'insert' and m.target[0] in END_REFS.get(m.kind, ())):
+            return
+        have_pre = Counter(canon(i) for i in items_of(ps))
+        have_post = Counter(canon(i) for i in items_of(qs))
+        for c in m.carried:
+            if iid(c) is None and have_post[canon(c)] < have_pre[canon(c)] + 1:
+                D.append(Dev('C04', 'carried-item-with-blank-id-missing',
+                             {'kind': m.kind, 'story': m.story_ref[1], 'pre': L, 'post': item_ids(qs)}))
+                return
 
 
 ABSENT_REF_NOTES = {'no storyID', 'no itemID', 'no target storyID'}
